@@ -332,8 +332,15 @@ bool hasComponentImports(const ComponentEntityConstPtr &componentEntity)
     return importsPresent;
 }
 
-bool hasUnitsImports(const UnitsPtr &units)
+bool hasUnitsImports(const UnitsPtr &units, std::vector<UnitsPtr> &visitedUnits)
 {
+    // Units that have already been looked at (or that are being looked at, in
+    // the case of a circular reference) do not need to be looked at again.
+    if (std::find(visitedUnits.begin(), visitedUnits.end(), units) != visitedUnits.end()) {
+        return false;
+    }
+    visitedUnits.push_back(units);
+
     bool importPresent = units->isImport();
     auto model = owningModel(units);
     size_t unistCount = units->unitCount();
@@ -341,7 +348,7 @@ bool hasUnitsImports(const UnitsPtr &units)
         std::string reference = units->unitAttributeReference(index);
         if (!reference.empty() && !isStandardUnitName(reference)) {
             if (model->hasUnits(reference)) {
-                importPresent = hasUnitsImports(model->units(reference));
+                importPresent = hasUnitsImports(model->units(reference), visitedUnits);
             }
         }
     }
@@ -351,9 +358,10 @@ bool hasUnitsImports(const UnitsPtr &units)
 bool Model::hasImports() const
 {
     bool importsPresent = false;
+    std::vector<UnitsPtr> visitedUnits;
     for (size_t index = 0; (index < unitsCount()) && !importsPresent; ++index) {
         libcellml::UnitsPtr units = Model::units(index);
-        importsPresent = hasUnitsImports(units);
+        importsPresent = hasUnitsImports(units, visitedUnits);
     }
 
     if (!importsPresent) {
